@@ -233,11 +233,36 @@ func runC10(c *mon.Ctx) {
 		k.Distinct(k.Index, fmt.Sprint(list))
 		k.Class("kind=" + info.Kind)
 
+		// the font that is subset is the caller's: neither Subset nor anything
+		// done with the subset afterwards (which shares glyphs and tables with
+		// it) may change it
+		origBytes := func() []byte {
+			buf := &bytes.Buffer{}
+			if pv, _ := mon.Try(func() { f.Write(buf) }); pv != nil {
+				return nil
+			}
+			return buf.Bytes()
+		}
+		pre := origBytes()
+		receiverUnchanged := func(after string) bool {
+			if pre == nil {
+				return true
+			}
+			k.Eval()
+			if post := origBytes(); !bytes.Equal(pre, post) {
+				k.Fail("mismatch", "original-font-changed:"+after, "the font that was subset writes different bytes after %s (first difference at byte %d of %d/%d) (%s)", after, firstDiff(pre, post), len(pre), len(post), desc)
+				return false
+			}
+			return true
+		}
 		var sub *sfnt.Font
 		if k.Guard("Subset", func() { sub = f.Subset(append([]glyph.ID{}, list...)) }) {
 			return
 		}
 		k.Eval()
+		if !receiverUnchanged("Subset") {
+			return
+		}
 		m := sub.NumGlyphs()
 		if m < len(list) {
 			k.Fail("mismatch", "glyph-count", "subset has %d glyphs for a list of %d (%s)", m, len(list), desc)
@@ -637,6 +662,9 @@ func runC10(c *mon.Ctx) {
 			return
 		}
 		k.Class("written-and-read-back")
+		if receiverUnchanged("the subset was written") && pre != nil {
+			k.Class("original-font-unchanged")
+		}
 		if k.Index < 3 {
 			k.Sample(desc)
 		}
@@ -694,7 +722,7 @@ func runC10(c *mon.Ctx) {
 		k.Class("cff-outlines-subset:" + info.Kind)
 	})
 	c.Require("list:ligature-chain-components-only", "kind=glyf", "kind=cff", "kind=cid", "cmap-compared", "encoding-compared", "kerning-compared", "gsub-rules-compared",
-		"written-and-read-back", "extras-appended:glyf", "cff-outlines-subset:cff", "cff-outlines-subset:cid")
+		"written-and-read-back", "original-font-unchanged", "extras-appended:glyf", "cff-outlines-subset:cff", "cff-outlines-subset:cid")
 }
 
 func dedup(a []string) []string {
